@@ -315,6 +315,20 @@ func (e *Engine) verifyPass(fn *ssa.Function, c *Contract, pre map[string]string
 		env := f.contractEnvTop(c, args, binds, r.results)
 		env.cur = r.pp.St
 		env.old = tr.init
+		// local names visible at this return (values of source variables) may be mentioned in postconditions; parameters
+		// and results keep priority
+		{
+			loc := &Env{f: f, vars: map[string]Val{}, cur: r.pp.St, old: tr.init}
+			saveBlock, saveIn := f.curBlock, f.curIn
+			f.curBlock, f.curIn = r.instr.Block(), r.instr
+			f.bindDebugNames(loc, r.instr.Block())
+			f.curBlock, f.curIn = saveBlock, saveIn
+			for n, v := range loc.vars {
+				if _, taken := env.vars[n]; !taken {
+					env.vars[n] = v
+				}
+			}
+		}
 		for i, cl := range c.Ensures {
 			t, err := env.boolExpr(cl.E)
 			if err != nil {
